@@ -754,6 +754,20 @@ class World:
                 return list(self._d[sec].items())
 
         m["configparser"] = types.SimpleNamespace(ConfigParser=ConfigParser)
+
+        # --- filecmp: the documented algorithm over the AFS
+        def filecmp_cmp(f1, f2, shallow=True):
+            s1, s2 = fs.stat(f1), fs.stat(f2)
+            reg1, reg2 = (s1.st_mode & 0o170000) == 0o100000, (s2.st_mode & 0o170000) == 0o100000
+            if not reg1 or not reg2:
+                return False
+            if shallow and tb(s1.st_size == s2.st_size) and s1.st_mtime == s2.st_mtime:
+                return True
+            if not tb(s1.st_size == s2.st_size):
+                return False
+            with fs.open(f1, "rb") as a, fs.open(f2, "rb") as b:
+                return bool(a.read() == b.read())
+        m["filecmp"] = types.SimpleNamespace(cmp=filecmp_cmp, clear_cache=lambda: None)
         return m
 
     # ---------------------------------------------------------------- builtins
